@@ -46,6 +46,7 @@ package node
 //@   ensures @balances err == nil ==> Lbal == old(batchBal(Lbal, txs, len(txs), currentHeight, rates, averages, burn))
 //@   ensures @supply err == nil ==> Lsupply == old(batchSup(Lsupply, txs, len(txs), currentHeight, rates, averages, burn))
 //@   ensures @never_negative err == nil ==> balNonNeg(Lbal)
+//@   ensures @error_is_not_a_reject_code !isRejectErr(err)
 //@   loop 1 invariant @range 0 <= iter && iter <= len(txs)
 //@   loop 1 invariant @bal Lbal == old(batchBal(Lbal, txs, iter, currentHeight, rates, averages, burn))
 //@   loop 1 invariant @nonneg balNonNeg(Lbal)
@@ -58,3 +59,45 @@ package node
 //@   loop 2 invariant @sup Lsupply == old(upd(batchSup(Lsupply, txs, iter1, currentHeight, rates, averages, burn), txs[iter1].Input.Type, batchSup(Lsupply, txs, iter1, currentHeight, rates, averages, burn)[txs[iter1].Input.Type] - txs[iter1].Input.Amount + sumNonBurn(txs[iter1].Transfers, iter, burn)))
 //@   loop 2 invariant @rel Lrel[H] && Lexec == upd(old(Lexec), H, currentHeight) && (forall h factom.Bytes32 :: h != H ==> (Lrel[h] <==> old(Lrel)[h]))
 //@   loop 2 invariant @tx_is_transfer old(!isConv(txs[iter1]) && !pegDeferred(currentHeight, txs, iter1))
+//@
+//@ // ---- admission of a batch (C03 C13 C17) ----------------------------------------------------
+//@ spec func smallAsset(t int) bool =
+//@     t == fat2.PTickerPEG || t == fat2.PTickerDCR || t == fat2.PTickerDGB || t == fat2.PTickerDOGE || t == fat2.PTickerHBAR
+//@     || t == fat2.PTickerONT || t == fat2.PTickerRVN || t == fat2.PTickerBAT || t == fat2.PTickerALGO || t == fat2.PTickerBIF
+//@     || t == fat2.PTickerETB || t == fat2.PTickerKES || t == fat2.PTickerNGN || t == fat2.PTickerRWF || t == fat2.PTickerTZS || t == fat2.PTickerUGX
+//@ spec func admissible(xs []fat2.Transaction, i int, h int, rates gomap[fat2.PTicker]uint64) bool =
+//@     !isConv(xs[i]) || (rates != nil && len(rates) > 0 && rates[xs[i].Input.Type] != 0 && rates[xs[i].Conversion] != 0
+//@         && !(h >= config.OneWaypFCTConversions && xs[i].Conversion == fat2.PTickerFCT)
+//@         && !(h >= config.OneWaySmallAssetsConversions && smallAsset(xs[i].Conversion)))
+//@ spec func convertible(xs []fat2.Transaction, i int, h int, rates gomap[fat2.PTicker]uint64, avgs gomap[fat2.PTicker]uint64) bool =
+//@     !isConv(xs[i]) || convOK(h, wrap_int64(xs[i].Input.Amount), rates[xs[i].Input.Type], avgs[xs[i].Input.Type], rates[xs[i].Conversion], avgs[xs[i].Conversion])
+//@
+//@ func (*Pegnetd).applyTransactionBatch
+//@   props C03 C13 C17 C06
+//@   requires @hash txBatch.Entry.Hash != nil && d.Pegnet != nil
+//@   requires @not_replayed !Lrel[*txBatch.Entry.Hash]
+//@   requires @nonneg balNonNeg(Lbal)
+//@   requires @burn_parses validFA(GlobalBurnAddress)
+//@   requires @nonempty len(txBatch.Transactions) > 0
+//@   let H = *txBatch.Entry.Hash
+//@   let txs = txBatch.Transactions
+//@   modifies Lbal, Lsupply, Lrel, Lexec, LtoAmt
+//@   ensures @reject_leaves_ledger_untouched isRejectErr(result) ==> Lbal == old(Lbal) && Lsupply == old(Lsupply) && Lrel == old(Lrel) && Lexec == old(Lexec) && LtoAmt == old(LtoAmt)
+//@   ensures @nil_is_applied_or_untouched result == nil ==> (Lrel[H] && Lexec == upd(old(Lexec), H, currentHeight) && Lbal == old(batchBal(Lbal, txs, len(txs), currentHeight, rates, averages, burnAddrAt(currentHeight)))) || (Lbal == old(Lbal) && Lsupply == old(Lsupply) && Lrel == old(Lrel) && Lexec == old(Lexec))
+//@   ensures @applied_implies_admissible result == nil && Lrel[H] ==> (forall k int :: 0 <= k && k < len(txs) ==> old(admissible(txs, k, currentHeight, rates)))
+//@   ensures @applied_implies_convertible result == nil && Lrel[H] ==> (forall k int :: 0 <= k && k < len(txs) ==> old(convertible(txs, k, currentHeight, rates, averages)))
+//@   ensures @never_negative result == nil ==> balNonNeg(Lbal)
+//@   ensures @nil_means_applied result == nil ==> Lrel[H]
+//@   ensures @nil_unapplied_only_if_unconvertible result == nil && !Lrel[H] ==> (exists k int :: 0 <= k && k < len(txs) && !old(convertible(txs, k, currentHeight, rates, averages)))
+//@   loop 1 invariant @range 0 <= iter && iter <= len(txs)
+//@   loop 1 invariant @admissible forall k int :: 0 <= k && k < iter ==> old(admissible(txs, k, currentHeight, rates)) && old(convertible(txs, k, currentHeight, rates, averages))
+//@   loop 1 invariant @inner_maps balances != nil && fresh(balances) && (forall a factom.FAAddress :: dom(balances)[a] ==> vals(balances)[a] != nil && fresh(vals(balances)[a]))
+//@   loop 1 invariant @inputs_present forall k int :: 0 <= k && k < iter ==> dom(balances)[old(txs[k].Input.Address)]
+//@   loop 1 preserves old
+//@   loop 2 preserves old
+//@   loop 3 preserves old
+//@   loop 2 invariant @range 0 <= iter && iter <= len(txs)
+//@   loop 2 invariant @inner_maps balances != nil && fresh(balances) && (forall a factom.FAAddress :: dom(balances)[a] ==> vals(balances)[a] != nil && fresh(vals(balances)[a]))
+//@   loop 2 invariant @inputs_present forall k int :: 0 <= k && k < len(txs) ==> dom(balances)[old(txs[k].Input.Address)]
+//@   loop 3 invariant @inner_maps balances != nil && fresh(balances) && (forall a factom.FAAddress :: dom(balances)[a] ==> vals(balances)[a] != nil && fresh(vals(balances)[a]))
+//@   loop 3 invariant @inputs_present forall k int :: 0 <= k && k < len(txs) ==> dom(balances)[old(txs[k].Input.Address)]
